@@ -29,7 +29,15 @@ def gen_case(rng):
     for _ in range(rng.choice([1, 2, 3, 5, 8])):
         r = rng.random()
         S = lim if r < 0.15 else (lim * rng.uniform(0.2, 1.0) if r < 0.35 else rng.uniform(lim, 1000.0))
-        rows.append((float(round(S, 2)) if S != lim else lim, rng.choice([0.5, 1.0, 2.0, 10.0, 250.0])))
+        S = float(round(S, 2)) if S != lim else lim
+        if r >= 0.35 and rng.random() < 0.15:
+            # just off the fatigue limit: a tolerance in the `S <= limit` test would move these rows
+            S = rng.choice([math.nextafter(lim, math.inf), lim * (1 + 1e-9), lim * (1 + 1e-6), lim * (1 - 1e-9), lim + 1e-4])
+        rows.append((S, rng.choice([0.5, 1.0, 2.0, 10.0, 250.0])))
+    if rng.random() < 0.35:
+        # the same stress level in several rows (concatenated load blocks)
+        for _ in range(rng.choice([1, 2])):
+            rows.insert(rng.randrange(len(rows) + 1), (rng.choice(rows)[0], rng.choice([0.5, 1.0, 3.0, 40.0])))
     return sn, lim, rows
 
 
@@ -49,11 +57,15 @@ def explore(res, rng, n):
         res.evaluations += 1
         res.nontrivial.add(json.dumps(case))
         res.stat('rows_below_or_at_limit' if any(S <= lim for S, _ in rows) else 'rows_all_above')
+        if len(set(S for S, _ in rows)) < len(rows):
+            res.stat('rows_with_repeated_level')
+        if any(S != lim and abs(S - lim) <= 1e-5 * lim for S, _ in rows):
+            res.stat('rows_within_1e-5_of_limit')
         d = float(fdm.minerDamageModelClassic([list(r) for r in rows], [list(p) for p in sn], lim))
         reqs.append(f'miner classic {gen.bits(lim)} {enc(sn)} {enc(rows)}')
         meta.append(('classic', case, d))
         fitter = utils.SnCurveFitter([list(p) for p in sn], fatigueLimit=lim)
-        for S in [lim, lim * 0.5, lim + 1.0, 777.0]:
+        for S in [lim, lim * 0.5, lim + 1.0, 777.0, math.nextafter(lim, math.inf), lim * (1 + 1e-7), lim * (1 - 1e-7)]:
             v = fitter.getN(S)
             reqs.append(f'miner logN {gen.bits(lim)} {enc(sn)} {gen.bits(S)}')
             meta.append(('logN', {'sn': sn, 'limit': lim, 'S': S}, 'sentinel' if v == -1 else math.log10(float(v))))
@@ -103,7 +115,7 @@ def explore(res, rng, n):
 def run(tier, seed):
     res = core.Result(PID, tier, seed)
     res.rule = ('random S-N data sets (2-6 points, falling log-linear curve with scatter, some exact powers of ten), fatigue limits, '
-                'cycle tables with rows below / exactly at / above the limit; distinct by case')
+                'cycle tables with rows below / exactly at / one ulp to 1e-6 off / above the limit, 35% with repeated stress levels; distinct by case')
     core.prove(res, PID, MODULES, clean=(tier == 'thorough'))
     n = 300 if tier == 'quick' else 10000
     explore(res, random.Random(seed), n)
